@@ -141,6 +141,23 @@ func Run(c *gen.Ctx) error {
 			plan = append(plan, planned{i, o})
 		}
 	}
+	// every single failing resolver of the pinned operations (in particular: a non-null field inside a deferred
+	// group, whose failure must null the group and nothing else)
+	for i := range corpus {
+		if i >= len(res1) {
+			break
+		}
+		seen := map[string]bool{}
+		for _, l := range res1[i].Log {
+			if l[0] != "r" || seen[l[1]] {
+				continue
+			}
+			seen[l[1]] = true
+			o := xeng.NewOracle()
+			o.Fields[l[1]] = xeng.FieldPlan{O: "error", Tag: "single"}
+			plan = append(plan, planned{i, o})
+		}
+	}
 	// pinned: a slow sibling in the outer group lets the nested group finish first
 	for i, q := range corpus {
 		if strings.Contains(q, `label: "outer"`) {
